@@ -207,6 +207,10 @@ def run(ck: Check, prog: Program) -> None:
     if es != ea:
         diffs.append(('dispatcher escape', f'sync {sorted(es)} / async {sorted(ea)}'))
     # clients
+    from .cfacts import client_program
+    n_server_pairs = len(pairs)
+    sprog = prog
+    prog = client_program(prog)
     crs = clients(prog)
     cs = [c for c in crs if not c.is_async][0]
     ca = [c for c in crs if c.is_async][0]
@@ -234,9 +238,10 @@ def run(ck: Check, prog: Program) -> None:
     diffs += [('retry loop', x) for x in d]
     pairs.append(('retry.wrapped', ls[1], la[1], {}))
     # TWIN-BAGS
-    for name, fs, fa, allow in pairs:
+    for i_, (name, fs, fa, allow) in enumerate(pairs):
         ck.functions |= {fs.qualname, fa.qualname}
-        bd = diff_bags(bag(prog, fs), bag(prog, fa), allow)
+        bp = sprog if i_ < n_server_pairs else prog
+        bd = diff_bags(bag(bp, fs), bag(bp, fa), allow)
         ck.ob('TWIN-BAGS', f'{name}: raised / caught / constructed-error / callee / condition bags equal', not bd,
               sample={'sync': short(fs.qualname), 'async': short(fa.qualname)})
         for x in bd:
